@@ -13,7 +13,8 @@
    real code (vf.hash(), compile.generate()).                                                    *)
 EXTENDS Integers, Sequences, FiniteSets, TLC, Emit
 
-CONSTANTS NF, MaxLen, KeyOf(_), SrcOf(_, _), ModeKey(_), Preseed, EmitBeh
+CONSTANTS NF, MaxLen, KeyOf(_), SrcOf(_, _), ModeKey(_), Preseed, EmitBeh,
+          SameKeyOnly     \* TRUE: after the first request only forms with the same key are requested (large universes)
 
 VARIABLES cache, hist, bad
 vars == <<cache, hist, bad>>
@@ -26,6 +27,7 @@ Init == cache = Preseed /\ hist = <<>> /\ bad = FALSE
 
 Request(f, m) ==
   /\ Len(hist) < MaxLen
+  /\ IF SameKeyOnly /\ Len(hist) > 0 THEN KeyOf(f) = KeyOf(hist[1].f) ELSE TRUE
   /\ LET k    == KeyOf(f)
          mk   == ModeKey(m)
          hit  == {e \in cache : e[1] = k /\ e[2] = mk}
